@@ -37,6 +37,12 @@ def _model_call(mp, names, env_models):
 
 
 def body(ctx: H.BaseCtx):
+    if ctx.case.get("mode") == "special":
+        return body_special(ctx)
+    return _body(ctx)
+
+
+def _body(ctx: H.BaseCtx):
     import numpoly
 
     case = ctx.case
@@ -127,6 +133,49 @@ def _atoms(case) -> List[str]:
             if a not in out:
                 out.append(a)
     return out
+
+
+def body_special(ctx: H.BaseCtx):
+    """Native only.  (1) Full evaluation of special-content polynomials at real / complex points against the term sum computed with
+    numpy on the same floats (parts compared separately, rtol 1e-12).  (2) The same point handed over in different carriers (python
+    number, numpy scalar, 0-d array, constant polynomial; positional or keyword; all at once or staged) gives the same value."""
+    import numpoly
+    from .. import special as SP
+
+    if ctx.symbolic:
+        return
+    points = [(2.0, -0.5), (1.5 + 1e-20j, 2.0), (1j, 1 - 1j), (0.5, 3e-15j)]
+    with numpy.errstate(all="ignore"):
+        for label, p in SP.zoo((2,)):
+            if "non-finite" in label:
+                continue
+            for x, y in points:
+                ref = numpy.zeros(p.shape, dtype=numpy.result_type(p.dtype, numpy.complex128 if isinstance(x, complex) or isinstance(y, complex) else numpy.float64))
+                for (e0, e1), c in SP.terms(p).items():
+                    ref = ref + c * (x ** e0) * (y ** e1)
+                fresh = lambda: SP.zoo((2,), only=label)[0][1]
+                carriers = {
+                    "python numbers": lambda: fresh()(x, y),
+                    "keywords": lambda: fresh()(q1=y, q0=x),
+                    "numpy scalars": lambda: fresh()(numpy.asarray(x)[()], numpy.asarray(y)[()]),
+                    "0-d arrays": lambda: fresh()(numpy.array(x), numpy.array(y)),
+                    "constant polynomials": lambda: fresh()(numpoly.polynomial(x), numpoly.polynomial(y)),
+                    "one constant polynomial": lambda: fresh()(numpoly.polynomial(x), y),
+                    "staged": lambda: fresh()(q0=x)(q1=y),
+                    "numpoly.call": lambda: numpoly.call(fresh(), (x, y)),
+                }
+                for cname, f in carriers.items():
+                    try:
+                        got = f()
+                    except Exception as e:
+                        ctx.unexpected_exception(e, "evaluation of %s at (%s, %s) given as %s" % (label, x, y, cname))
+                        continue
+                    if isinstance(got, numpoly.ndpoly):
+                        ctx.fail("type", "full evaluation of %s at (%s, %s) given as %s returns a polynomial" % (label, x, y, cname))
+                        continue
+                    rt = 1e-12 if p.dtype.itemsize >= 8 and p.dtype != numpy.complex64 else 1e-5
+                    if not SP.close_parts(got, ref, rtol=rt):
+                        ctx.fail("value", "%s evaluated at (%s, %s) given as %s: %s, the term sum gives %s" % (label, x, y, cname, numpy.asarray(got).tolist(), numpy.asarray(ref).tolist()))
 
 
 def run_case(case: Dict) -> Dict:
@@ -236,6 +285,9 @@ def gen_cases(tier: str, seed: int) -> List[Dict]:
         p = poly("a", ("q0", "q1"), psh, 3, 3)
         add("staged", poly=p, args=[], kwargs={"q0": num("x", rng.choice([(), (2,)])), "q1": num("y", ())}, mode="staged")
         add("staged", poly=p, args=[], kwargs={"q1": num("y", ()), "q0": num("x", ())}, mode="staged")
+    cases.append({"id": "%s-%03d-special-content" % (PROP, n + 1), "op": "call:special", "mode": "special", "poly": {"kind": "poly", "names": ["q0"], "exps": [[0]], "shape": [], "slots": [[1]], "mode": "raw"},
+                  "args": [], "kwargs": {}, "limits": lim})
+    n += 1
     # the three TypeError cases with symbolic values
     p = poly("a", ("q0", "q1"), (2,), 2, 3)
     add("err-unknown", poly=p, args=[], kwargs={"q7": num("x", ())}, mode="error", why="unknown name")
